@@ -82,6 +82,12 @@ theorem optimize_width_coherent_and_fits (t : Odf.Table.Tbl) (h : Odf.Table.Inv 
     Odf.Table.Inv (tblOptimize t) ∧ Odf.Table.GridFit (Odf.Table.absT (tblOptimize t)) :=
   tblOptimize_inv_fit t h hfit
 
+/-- … and every value (a cell that is not empty even for `aggressive=True`) is still read at its coordinates -/
+theorem optimize_width_keeps_values (t : Odf.Table.Tbl) (h : Odf.Table.Inv t) (x y v : Nat) (row : List Nat)
+    (hrow : (Odf.Table.absT t).rows[y]? = some row) (hv : row[x]? = some v) (hne : empOf true v = false) :
+    ∃ row', (Odf.Table.absT (tblOptimize t)).rows[y]? = some row' ∧ row'[x]? = some v :=
+  tblOptimize_keeps t h x y v row hrow hv hne
+
 example :
     let t := Odf.Table.parse [(0, 5)] [([(5, 1), (0, 4)], 1), ([(0, 5)], 1), ([(0, 5)], 2)]
     (tblOptimize t).rows.runs = [([(5, 1), (0, 1)], 1), ([(0, 2)], 1)] ∧ (tblOptimize t).cols.runs = [(0, 2)] := by
